@@ -252,6 +252,24 @@ def run : List (Op α) → Tbl α → Except Err (Tbl α)
     | .error e => .error e
     | .ok t' => run ops t'
 
+/-! A **pool** of live lists: every operation takes a receiver from the pool (by position), its result joins
+the pool, the receiver stays. The operations are not assigning, so nothing else in the pool changes. -/
+
+def poolStep (i : Nat) (op : Op α) (pool : List (Tbl α)) : Except Err (List (Tbl α)) :=
+  match pool[i]? with
+  | none => .error .index
+  | some t =>
+    match step off len op t with
+    | .error e => .error e
+    | .ok t' => .ok (pool ++ [t'])
+
+def runPool : List (Nat × Op α) → List (Tbl α) → Except Err (List (Tbl α))
+  | [], pool => .ok pool
+  | iop :: ops, pool =>
+    match poolStep off len iop.1 iop.2 pool with
+    | .error e => .error e
+    | .ok pool' => runPool ops pool'
+
 end ops
 
 /-! ### records, items, schemas -/
